@@ -443,6 +443,49 @@ func (g *world) runHeld(trial int) {
 	g.emit(s, "held-adjust")
 }
 
+// Two completion tokens pending at once (C05: "every waiting item's adjust function is consulted for EVERY decision").
+// Two workers; items 0,1 execute, 2,3 sit in the worker channel, 4 (adjust function, worst priority, held), 5, 6, 7 wait.
+// Batch: 0 completes -> the dispatcher consumes the token and parks in item 4's adjust function; 1 completes and 2
+// (started meanwhile) completes: two tokens are pending when the dispatcher is released.  Three decisions follow, each
+// must consult item 4: three consultations in the batch's observation, and 5, 6, 7 are handed out in that order.
+func (g *world) runHeldTwoTokens(trial int) {
+	L := 4 + trial%3
+	opts := []Opt{{"w", 2}, {"l", L}}
+	if trial%2 == 1 {
+		opts = []Opt{{"l", L}, {"w", 2}}
+	}
+	s := newSessOpts(opts)
+	for i := 0; i < 4; i++ {
+		s.do(Stim{Op: "enq", A: 1, B: i})
+	}
+	s.do(Stim{Op: "enq", A: 9, B: 4, Adj: true})
+	s.do(Stim{Op: "enq", A: 1 + trial%2, B: 5})
+	s.do(Stim{Op: "enq", A: 2, B: 6})
+	s.do(Stim{Op: "enq", A: 3, B: 7})
+	s.do(Stim{Op: "batch", A: 4, Sub: []Stim{{Op: "fin", A: 0, B: -1}, {Op: "fin", A: 1, B: -1}, {Op: "fin", A: 2, B: -1}}})
+	s.finishAll(100)
+	s.close()
+	g.emit(s, "held-adjust-two-tokens")
+}
+
+// Many error subscribers (C14): n channels, one failing item, every channel receives the error once, in turn.
+func (g *world) runManySubscribers(n int) {
+	s := newSessOpts([]Opt{{"l", 2}, {"w", 1}})
+	for i := 0; i < n; i++ {
+		s.do(Stim{Op: "esub"})
+	}
+	s.do(Stim{Op: "enq", A: 1, B: 0})
+	s.do(Stim{Op: "enq", A: 1, B: 1})
+	s.do(Stim{Op: "fin", A: 0, B: 0})
+	for i := 0; i < n; i++ {
+		s.do(Stim{Op: "erecv", A: i})
+	}
+	s.do(Stim{Op: "erecv", A: 0}) // nothing more
+	s.finishAll(50)
+	s.close()
+	g.emit(s, fmt.Sprintf("subscribers-%d", n))
+}
+
 // ---------- configuration scripts: HOW the worker count and queue length are given (C09) ----------
 // Each script builds the queue from an option list (either order, one option alone = the other at its default
 // NumCPU / 2*NumCPU, repeated options, optionally ResizeQueueLength right after construction), fills it with gated
@@ -1221,9 +1264,23 @@ func main() {
 				nh = 200
 			}
 			for i := 0; i < nh; i++ {
-				g.runHeld(i)
+				if i%3 == 2 {
+					g.runHeldTwoTokens(i)
+				} else {
+					g.runHeld(i)
+				}
 			}
 			scope["held-adjust"] = fmt.Sprintf("%d runs of the held-adjust-function scenario (W=1; an arrival and a completion token become ready together while the dispatcher is parked in an adjust function)", nh)
+		}
+		if *prop == "C14" {
+			ns := []int{8, 9, 17}
+			if *tier == "thorough" {
+				ns = []int{7, 8, 9, 16, 17, 33, 64, 65, 100}
+			}
+			for _, n := range ns {
+				g.runManySubscribers(n)
+			}
+			scope["subscribers"] = fmt.Sprintf("scripts with %v error subscribers (one failing item, every channel read in turn)", ns)
 		}
 		if *prop == "C09" {
 			for _, c := range configScripts() {
